@@ -1089,8 +1089,11 @@ def is_blocking(node: ast.AST, parent_type: ast.AST = None) -> bool:
             iterator = literal_value(node.iter)
         except ValueError:
             return False
-        if not any(True for _ in iterator):
-            return False
+        try:
+            if not any(True for _ in iterator):
+                return False
+        except TypeError:
+            return False  # e.g. "for x in 5:" raises at runtime, nothing is known about the loop
 
     if isinstance(node, (ast.For, ast.While)):
         for child in node.body:
